@@ -1509,7 +1509,7 @@ func builtinSortStable(env *LEnv, args *LVal) *LVal {
 		keyFun = optArgs[0]
 		keyFun = env.GetFunGlobal(keyFun)
 		if keyFun.Type == LError {
-			return less
+			return keyFun
 		}
 		if keyFun.Type != LFun {
 			return env.Errorf("third argument is not a function: %v", keyFun.Type)
